@@ -155,7 +155,8 @@ def gen_source(rng, malformed=False):
     if malformed:
         k = rng.random()
         idx = rng.randrange(0, len(out)) if out else 0
-        faults = ["BRZ nowhere", "foo: .word", ".data", ".text", "LDA", "INC 3", "x: .word 1", "loop:", "ADD 0x", "bogus 1",
+        faults = ["a_very_long_label_name_that_goes_on_and_on_and_on_0123456789_abcdefgh: LDA 1 ' # c", " " * 64 + 'NOP " # x',
+                  "BRZ nowhere", "foo: .word", ".data", ".text", "LDA", "INC 3", "x: .word 1", "loop:", "ADD 0x", "bogus 1",
                   "LDA " + "9" * 4400, "LDA 12ab", ".word 3", "x: .byte 1", "ADD 1 2", "é: NOP", "STO 0x" + "F" * 40,
                   "v: .word " + "1" * 4301]
         out.insert(idx, rng.choice(faults))
